@@ -398,7 +398,8 @@ def _roles_of_def(prog, u, du, nid, arg: ast.Name, d, prop_names, depth):
         return None if sub is None else [(roles, d.node) for (roles, _) in sub]
     if not d.sel and isinstance(d.value, ast.Constant) and d.value.value is None:
         return [((), d.node)]
-    if not d.sel and (isinstance(d.value, ast.Name) or _copied_operand(d.value) is not None) \
+    if not d.sel and (isinstance(d.value, ast.Name) or _copied_operand(d.value) is not None
+                      or (isinstance(d.value, ast.Attribute) and d.value.attr == "T")) \
             and d.node != nid:
         return superop_roles(prog, u, du, d.node, d.value, prop_names, depth + 1)
     r = classify_superop_arg(prog, u, du, nid, arg, prop_names, only_def=d)
@@ -1203,3 +1204,7 @@ def run(prog: Program, chk: Check) -> None:
     chk.call(o5, prog, chk)
     chk.call(o6, prog, chk)
     chk.call(o7, prog, chk)
+    # a re-initialised chain applies its controls like a fresh one (no "already applied" flag
+    # survives initialize())
+    from rules.c13 import restart_resets
+    chk.call(restart_resets, prog, chk, "O8", records=False)
